@@ -26,7 +26,7 @@ class C02(DiffProperty):
                "harness/c02_stream.c plays the transport: it moves finished bytes between the rings and enlarges the reader ring when it is full or the "
                "decoder asks for buffer (as mptio/stream/stream_poll.c does with mpt_queue_prepare)"]
     assumptions = ["the reader ring can grow (realloc succeeds)", "OS-level partial writes/timeouts of mptio are outside the model"]
-    level_text = ("proof (partial): SAFETY is proved end to end at ring level for all histories, liveness only per frame. Flat level: C02_wire_splits_into_frames, "
+    level_text = ("proof (partial): SAFETY is proved end to end at ring level for all histories, LIVENESS for a reader that makes room before each call (C02_stream_delivers_all: as many calls as messages were sent deliver all of them and leave nothing unread). Flat level: C02_wire_splits_into_frames, "
                   "C02_stream_integrity_flat (all message sequences, all splits into pushes, all capacity schedules). Ring level, writer: C02_queue_push_refines (one "
                   "mpt_queue_push on a wrapped ring in any state keeps the stream-level encoder invariant, every branch: aligned, upper part, lower part, out-of-band "
                   "copy of a straddling block, second push, align-and-retry), C02_ring_writer_invariant, C02_ring_writer_total (no history faults), "
@@ -36,7 +36,7 @@ class C02(DiffProperty):
                   "bytes). Composition: C02_stream_end_to_end, C02_ring_to_ring (any prefix of the writer's stream in any pieces: delivered = a prefix of sent, in order). "
                   "Tied to the code by differential execution of the same ring-level model (state compared after every operation) on rings of many capacities/offsets "
                   "with arbitrary wire cuts incl. single-byte delivery, decided against the specification 'received = sent'")
-    level_note = ("partial: liveness ('everything arrives after a drain') is proved per frame at loop level only (C02_stream_integrity_flat with the gap condition) and "
+    level_note = ("partial: liveness ('everything arrives after a drain') is proved for the flat call-level reader that leaves length+16 bytes of scratch space before each call (C02_stream_delivers_all, composed of C02_ring_writer_stream and the spaced-reader theorem of C03), not for the ring-level reader history rh_run; there it is "
                   "decided for histories by the correspondence run; a genuine decoding error ends the reader history of the theorem; the mptio stream glue (mpt_stream_push/flush/poll/dispatch over a socketpair) has no "
                   "mechanism model: it is executed and compared with the specification only (three defects found there and repaired). Theorems closed under the global context.")
     technique = "Coq theorems: ring-level writer and reader histories refine the stream-level codec invariants, end-to-end composition (delivered is a prefix of sent); specification-level differential check of the ring-level mechanism model"
